@@ -165,6 +165,62 @@ func addFitted(t *rapid.T, tree *hx.Node) {
 	parent.Children = append(parent.Children, d)
 }
 
+// addFittedPathTable adds directories whose path-table records (root 10 bytes; primary 8 + name + pad, Joliet 8 + 2 per
+// character) fill k sectors exactly - or miss that by one record size - in one of the two hierarchies: the boundary of
+// every "sectors taken by the table" computation.  ps3: the PS3_GAME directory of PS3 mode is accounted for.
+func addFittedPathTable(t *rapid.T, tree *hx.Node, ps3 bool) {
+	joliet := rapid.Bool().Draw(t, "ptfit-joliet")
+	k := rapid.IntRange(1, 2).Draw(t, "ptfit-sectors")
+	rec := func(n int) int {
+		if joliet {
+			return 8 + 2*n
+		}
+		return 8 + n + n%2
+	}
+	used := 10
+	var names []string
+	tree.Walk(func(rel string, n *hx.Node) {
+		if n.Kind == "dir" && rel != "" {
+			used += rec(len([]rune(n.Name)))
+		}
+	})
+	if ps3 {
+		used += rec(8)
+	}
+	target := 2048*k + rapid.SampledFrom([]int{0, 0, 0, -2, 2, -16}).Draw(t, "ptfit-delta")
+	i := 0
+	for target-used >= rec(8)+rec(1) {
+		names = append(names, fmt.Sprintf("P%07d", i))
+		used += rec(8)
+		i++
+	}
+	if r := target - used; r >= rec(1) {
+		// one last record takes what is left (sizes are even in both hierarchies)
+		n := r - 8
+		if joliet {
+			n = (r - 8) / 2
+		}
+		if n >= 1 && n <= 40 {
+			names = append(names, ("Q" + strings.Repeat("z", 40))[:n])
+		}
+	}
+	// flat, or hanging below each other in short chains (the nesting does not change a table's size)
+	chain := rapid.SampledFrom([]int{1, 1, 3, 7}).Draw(t, "ptfit-chain")
+	var parent *hx.Node
+	for j, nm := range names {
+		d := hx.Dir(nm)
+		if j%chain == 0 || parent == nil {
+			tree.Children = append(tree.Children, d)
+		} else {
+			parent.Children = append(parent.Children, d)
+		}
+		parent = d
+	}
+	if parent != nil {
+		parent.Children = append(parent.Children, hx.File("LEAF.BIN", 3000, 4242))
+	}
+}
+
 func genC07(t *rapid.T) isoCase {
 	shape := rapid.IntRange(0, 9).Draw(t, "shape")
 	o := hx.TreeOpts{MaxDepth: 3, MaxEntries: 6, MaxTotal: 40, MaxFile: 150000, EmptyBias: true, MTimes: true}
@@ -185,6 +241,9 @@ func genC07(t *rapid.T) isoCase {
 	}
 	c := isoCase{Tree: tree, PS3: rapid.IntRange(0, 2).Draw(t, "ps3") == 0, PermSeed: rapid.Uint64().Draw(t, "perm"),
 		Route: rapid.SampledFrom([]string{"lib", "lib", "lib", "net", "makeiso"}).Draw(t, "route")}
+	if shape == 6 {
+		addFittedPathTable(t, tree, c.PS3)
+	}
 	if c.PS3 {
 		c.TitleID = genTitleID(t)
 	}
@@ -312,7 +371,12 @@ func buildAndDecode(c isoCase, st *hx.Stats) (*decoded, error) {
 		if c.Chunk > 0 {
 			if err := interleavedPass(v, img, c.Chunk, func(off int64, n int) ([]byte, error) {
 				b := make([]byte, n)
-				_, err := io.ReadFull(io.NewSectionReader(viso, off, int64(n)), b)
+				k, err := viso.ReadAt(b, off)
+				if k == n {
+					err = nil
+				} else if err == nil {
+					err = fmt.Errorf("ReadAt returned %d of %d bytes without an error", k, n)
+				}
 				return b, err
 			}, st); err != nil {
 				fx.Close()
@@ -407,7 +471,10 @@ func buildAndDecode(c isoCase, st *hx.Stats) (*decoded, error) {
 		cmd := exec.Command(hx.BinPath(), args...)
 		cmd.Env = []string{"PATH=/usr/bin:/bin", "HOME=/nonexistent-home"}
 		cmd.Dir = fx.Tmp
-		ob, err := cmd.CombinedOutput()
+		ob, err := combinedOutputBounded(cmd)
+		if f, ok := err.(*hx.Fail); ok {
+			return nil, f
+		}
 		if err != nil {
 			if strings.Contains(string(ob), "panic:") || strings.Contains(string(ob), "goroutine ") {
 				fx.Close()
@@ -525,6 +592,7 @@ func runC07(c isoCase, st *hx.Stats) error {
 		return hx.Failf("image-creation", "image creation failed for a tree of portable, distinct names (route %s)", c.Route)
 	}
 	defer d.cleanup()
+	labelPathTableFit(d.vol, st)
 	if err := compareTree(d.vol, c.tree(), 64<<20); err != nil {
 		return err
 	}
